@@ -614,11 +614,15 @@ func atomicity(ctx *core.Ctx, bin string, caseNo int, race bool) {
 			for i := 0; i < perClient; i++ {
 				tok := fmt.Sprintf("%d", ci*1000000+i)
 				var err error
+				cmd := []string{v, twoSets, "1", "s" + strconv.Itoa(ci), tok}
 				if v == "EVALSHA" {
-					_, err = c.Do("EVALSHA", sha, "1", "s"+strconv.Itoa(ci), tok)
-				} else {
-					_, err = c.Do(v, twoSets, "1", "s"+strconv.Itoa(ci), tok)
+					cmd[1] = sha
 				}
+				if i%3 == 2 {
+					// the same call under a generous TIMEOUT: still one indivisible step
+					cmd = append([]string{"TIMEOUT", "30"}, cmd...)
+				}
+				_, err = c.Do(cmd...)
 				if err != nil {
 					return
 				}
